@@ -200,6 +200,12 @@ fn run_case(ch: &Chooser, env: &Env, which: usize, st: &stream::Stream, cfg: &Wr
     if a.is_ok() && b.is_ok() {
         return Ok(());
     }
+    // what was observed of a failing execution is its failure (keeps the observation log meaningful
+    // when a change makes every execution of a harness fail)
+    if let Err((f, _, _)) = &a {
+        let lines: Vec<String> = st.recs.iter().map(|r| r.sam_line(&names)).collect();
+        ch.obs_hash((f, &lines, cfg.describe()));
+    }
     // A failure. Which block fails first can depend on the hash order, so the passes are repeated and
     // the smallest fingerprint is reported (keeps the verdict and its class reproducible).
     let mut fails: Vec<(String, String, String)> = Vec::new();
